@@ -1377,8 +1377,8 @@ fn scenario_watch(sc: &str) -> Result<Violations, String> {
             "f" => { set_key_value("k".into(), "zz".into(), 0, &db, &dbs); }
             // the key has never been snapshotted (state New): removing it drops the entry instead of leaving a tombstone - the subscriptions outlive that
             "n" => { db.set_value_version(&"k".to_string(), &"5".to_string(), 3, ValueStatus::New, 0, 0, 3); }
-            // a burst: 60 writes nobody drains in between - a slow subscriber still gets both frames of every one of them
-            "b" => { for _ in 0..60 { set_key_value("k".into(), "7".into(), -1, &db, &dbs); } for w in 0..2 { expect[w] += 120 * sub[w]; } }
+            // a burst: 600 writes nobody drains in between (more frames than the subscriber's channel buffers: 1000) - a slow subscriber still gets both frames of every one of them
+            "b" => { for _ in 0..600 { set_key_value("k".into(), "7".into(), -1, &db, &dbs); } for w in 0..2 { expect[w] += 1200 * sub[w]; } }
             _ => return Err("bad event".into()),
         }
         let got = [drain(&mut ra), drain(&mut rb)];
